@@ -30,6 +30,9 @@ type c19Params struct {
 	EmptyKey bool       `json:"empty_key"`
 	Fixed    *gen.Table `json:"fixed,omitempty"`
 	ViaFile  bool       `json:"via_file,omitempty"` // rows enter through Sorter.SortFile (the CSV route) instead of AddRow
+	// SpillFault > 0: while rows SpillFault..SpillFault+3 are added the spill directory does not exist; AddRow's error is
+	// ignored (as ReingestTable does) and the outputs must still hold every row
+	SpillFault int `json:"spill_fault,omitempty"`
 }
 
 func toU32(a []int) []uint32 {
@@ -127,13 +130,27 @@ func feedSorter(rows [][]string, cols []string, pk []int, runSize uint64, withPr
 		s.Columns = append([]string(nil), cols...)
 	}
 	s.PK = toU32(pk)
-	for _, r := range rows {
+	for i, r := range rows {
+		if c19SpillFaultAt > 0 && i >= c19SpillFaultAt && i < c19SpillFaultAt+4 {
+			// for a few rows the spill directory is gone (RUNNER_TEMP is where the sorter creates its files): AddRow may
+			// fail; the caller carries on, as ReingestTable and the doctor do, and no row may be lost by that
+			os.Setenv("RUNNER_TEMP", "/nonexistent-spill-directory")
+			err := s.AddRow(r)
+			os.Unsetenv("RUNNER_TEMP")
+			if err != nil {
+				c19SpillFaultsSeen++
+			}
+			continue
+		}
 		if err := s.AddRow(r); err != nil {
 			return nil, err
 		}
 	}
 	return s, nil
 }
+
+// c19SpillFaultAt > 0: from that row on (four rows long) the sorter cannot create spill files.
+var c19SpillFaultAt, c19SpillFaultsSeen int
 
 func listChunks() []string {
 	ents, _ := os.ReadDir(os.TempDir())
@@ -266,6 +283,16 @@ func c19Run(c *fw.Case, env *fw.Env) *fw.Obs {
 	ncolsAfter := len(t.Cols) - len(removed)
 	model := gen.Model(exp, pkAfterRemoval(p.PK, removed, len(t.Cols)), ncolsAfter)
 
+	c19SpillFaultAt, c19SpillFaultsSeen = 0, 0
+	if p.SpillFault > 0 && !p.ViaFile && len(t.Rows) > p.SpillFault+4 {
+		c19SpillFaultAt = p.SpillFault
+	}
+	defer func() {
+		if c19SpillFaultsSeen > 0 {
+			o.Ev("spill_creation_failures_ignored_by_the_caller", int64(c19SpillFaultsSeen))
+		}
+		c19SpillFaultAt = 0
+	}()
 	before := listChunks()
 	outs := map[string]sorterOut{}
 	spilled := 0
@@ -416,6 +443,8 @@ func init() {
 				}
 				if rng.Intn(4) == 0 && p.NCols >= 2 {
 					p.ViaFile, p.Removed = true, nil
+				} else if rng.Intn(6) == 0 && p.Rows > 12 && (p.Chunks == "two" || p.Chunks == "five" || p.Chunks == "every") {
+					p.SpillFault = 1 + rng.Intn(p.Rows-6)
 				}
 				l.Add("random", p, 0)
 			}
